@@ -1,5 +1,5 @@
 #!/usr/bin/env python3
-"""selftest/decwork_mutations.py - non-vacuity of spec/DecWork.tla: five specification-level mutations (the
+"""selftest/decwork_mutations.py - non-vacuity of spec/DecWork.tla: six specification-level mutations (the
 bookkeeping mistakes that sub-agents independently seeded into decoder_work.rs in round 8, and two more) must each
 violate DInv / StepOK in the bounded model MC_DecWork_3.cfg.  Exit 0 when all are rejected."""
 import os, re, shutil, subprocess, sys, tempfile
@@ -9,6 +9,7 @@ MUTS = {
  'reset_never_clears': ("  /\\ bits' = {}                                                     \\* received.clear()", "  /\\ bits' = bits"),
  'bit_set_before_size_check': ("     ELSE IF ~szok THEN ret' = \"different_size\" /\\ UNCHANGED <<bits, ocnt>>", "     ELSE IF ~szok THEN ret' = \"different_size\" /\\ bits' = bits \\cup {obase + i} /\\ UNCHANGED ocnt"),
  'drop_keeps_bits': ("  /\\ bits' = {} /\\ ocnt' = 0 /\\ rcnt' = 0 /\\ ret' = \"ok\"", "  /\\ bits' = bits /\\ ocnt' = 0 /\\ rcnt' = 0 /\\ ret' = \"ok\""),
+ 'bitmap_exactly_as_long_as_needed': ("             IN IF blen < need THEN need ELSE blen                  \\* grow only when shorter", "             IN need"),
  'high_obase_is_r': ('OBase(rt, kk, rr) == IF rt = "high" THEN NPot(rr) ELSE 0', 'OBase(rt, kk, rr) == IF rt = "high" THEN rr - 1 ELSE 0'),
 }
 def main():
